@@ -19,7 +19,7 @@ ASSUMPTIONS = [
 CASES = {"quick": 40000, "thorough": 1500000}
 MIN_CASES = {"quick": 10000, "thorough": 30000}
 REQUIRED_CLASSES = ["valid", "invalid"]
-REQUIRED_COUNTERS = ["tiling_checked", "inputs_unchanged_checked", "invalid_rejected_checked", "same_tree_loaded_twice", "attached_netlist_with_movable_hard_modules", "entry:text", "entry:file", "entry:tree", "entry:handle",
+REQUIRED_COUNTERS = ["tiling_checked", "inputs_unchanged_checked", "invalid_rejected_checked", "rejudged_after_accessors", "same_tree_loaded_twice", "attached_netlist_with_movable_hard_modules", "entry:text", "entry:file", "entry:tree", "entry:handle",
                      "struct:empty", "struct:full_cover", "struct:ring", "struct:tjunction", "struct:border"]
 
 
@@ -91,6 +91,12 @@ def check(case, ctx):
         ctx.violation("valid_rejected", f"valid die rejected with {type(res).__name__}: {str(res)[:300]} :: W={d['W']} H={d['H']} regions={d['regions']} fixed={d['fixed']}")
         return
     die, nl = res
+    judge_die(ctx, die, d, nl)
+    # reading the die through its accessors (as the allocation code does) must not alter it
+    ctx.call(die.floorplanning_rectangles)
+    ctx.call(die.floorplanning_rectangles)
+    ctx.call(die.write_yaml)
+    ctx.count("rejudged_after_accessors")
     judge_die(ctx, die, d, nl)
     if case["entry"] == "tree":
         # the caller's own tree object: loading must not consume or alter it (a second load gives the same die)
